@@ -96,6 +96,14 @@ def spec_nested_parse(cls, parsable):
     P.nested = getattr(P, 'nested', set())
     P.nested.add(cls)
     buf = ops.as_seq(parsable)
+    if K3_CLAUSE:
+        # clauses K3 + K8 of the nested class (proved by its own units): a buffer that starts with the bytes an object of
+        # this class composed to parses to that object and consumes exactly those bytes
+        for c, obj, seq in getattr(P, 'abs_composed', []):
+            if c is cls and P.entails(buf.n >= seq.n):
+                j = V.fresh_int('kj')
+                if P.entails(z3.Implies(z3.And(j >= 0, j < seq.n), buf.at(j) == seq.at(j))):
+                    return obj, ops.wrap_int(seq.n)
     # determinism: the same class applied to a provably equal byte string behaves identically (used by the 2-run
     # obligations K8: the second run re-parses the same nested slices)
     memo = getattr(P, 'nested_memo', None)
@@ -151,7 +159,8 @@ FRAMING_NAMES = set()
 ITEM_CLASSES = set()      # classes used as items of a parsable vector (clause K2i applies to them)
 
 
-K5_LENGTHS = False      # set by checks/c05: a nested object parsed from n bytes composes to n bytes (listed assumption)
+K5_LENGTHS = False
+K3_CLAUSE = False       # set by checks/kexinit: parsing the bytes an abstract object composed to gives that object back      # set by checks/c05: a nested object parsed from n bytes composes to n bytes (listed assumption)
 
 
 def spec_abstract_compose(self):
@@ -167,6 +176,7 @@ def spec_abstract_compose(self):
         if K5_LENGTHS and getattr(self, 'abstract_n', None) is not None:
             P.assume(seq.n == self.abstract_n)         # assumed nested clause K5L: re-encoding keeps the length
         self.f[key] = seq
+        P.__dict__.setdefault('abs_composed', []).append((getattr(self, 'abstract_of', None) or self.cls, self, seq))
     return self.f[key].copy('bytearray')
 
 
